@@ -566,7 +566,7 @@ func (g *Gen) service() *Service {
 	s := &Service{Name: name}
 	shared := "" // request field named by a parameter of the base path
 	if g.R.Chance(70) {
-		base := vh.Pick(g.R, []string{"/foo/v1", "/foo/v1/", "/" + strings.ToLower(name), "/a/b/c", "/", "/x//y", "/v1/./z", "rel/base"})
+		base := vh.Pick(g.R, []string{"/foo/v1", "/foo/v1/", "/" + strings.ToLower(name), "/a/b/c", "/", "/x//y", "/v1/./z", "rel/base", "/a/../b/c", "/.."})
 		if g.R.Chance(35) {
 			shared = vh.Pick(g.R, []string{"tenantId", "accountID", "org_id", "fooBarId", "x1"})
 			base = vh.Pick(g.R, []string{"/local/v1/tenant/:" + shared + "/foo", "/:" + shared, "/v1/:" + shared + "/", "t/:" + shared + "/x"})
@@ -660,8 +660,18 @@ func (g *Gen) topic() *Topic {
 			}
 			st.topSyms[strcase.ToCamel(name+"Request")+"Topic"] = true
 			st.topSyms[strcase.ToCamel(name+"Reply")+"Topic"] = true
-			t.Req = []*Tmsg{g.tmsg(false, st.topSyms, name+"Request")}
-			t.Reply = []*Tmsg{g.tmsg(false, st.topSyms, name+"Reply")}
+			if g.R.Chance(25) { // several named request / reply messages
+				for i := g.R.Range(2, 3); i > 0; i-- {
+					t.Req = append(t.Req, g.tmsg(true, st.topSyms, ""))
+				}
+				for i := g.R.Range(1, 2); i > 0; i-- {
+					t.Reply = append(t.Reply, g.tmsg(true, st.topSyms, ""))
+				}
+				g.Stats["topic_reqres_multi"]++
+			} else {
+				t.Req = []*Tmsg{g.tmsg(g.R.Chance(30), st.topSyms, name+"Request")}
+				t.Reply = []*Tmsg{g.tmsg(g.R.Chance(30), st.topSyms, name+"Reply")}
+			}
 		default:
 			named := g.R.Chance(50)
 			if st.topSyms[svc] || (!named && st.topSyms[name+"Message"]) {
